@@ -17,6 +17,7 @@ package fasthttputil
 // that starts after Close returned must fail.
 
 import (
+	"bufio"
 	"bytes"
 	"encoding/json"
 	"fmt"
@@ -37,6 +38,36 @@ type c33Op struct {
 	From int      `json:"from"`
 	Dl   bool     `json:"dl"`
 	Errs []string `json:"errs"`
+	Via  string   `json:"via"`
+}
+
+// c33WriteVia performs one write of p on c through the named entry point.
+func c33WriteVia(c net.Conn, via string, p []byte) (int, error) {
+	switch via {
+	case "", "Write":
+		return c.Write(p)
+	case "WriteString":
+		sw, ok := c.(io.StringWriter)
+		if !ok {
+			return c.Write(p)
+		}
+		return sw.WriteString(string(p))
+	case "io.WriteString":
+		return io.WriteString(c, string(p))
+	case "bufio":
+		// a small bufio.Writer: short strings reach the conn as Write at Flush, longer ones through
+		// bufio's direct io.StringWriter path
+		bw := bufio.NewWriterSize(c, 16)
+		n, err := bw.WriteString(string(p))
+		if err == nil {
+			err = bw.Flush()
+		}
+		if err != nil {
+			n = 0
+		}
+		return n, err
+	}
+	panic("c33: unknown write entry point " + via)
 }
 
 // byte at position p of the stream written by end e
@@ -158,14 +189,14 @@ func c33Replay(pc *PipeConns, ops []c33Op, rng *rand.Rand, progress *atomic.Int3
 			}
 			wbuf = wbuf[:op.Arg]
 			c33Fill(wbuf, op.E, op.From)
-			n, err := c.Write(wbuf)
+			n, err := c33WriteVia(c, op.Via, wbuf)
 			c33Scribble(wbuf) // Write has returned: the buffer belongs to the caller again
 			if n > 0 {
 				acked[op.E] += n
 			}
 			if n != op.N || !c33In(c33ErrClass(err), op.Errs) {
-				return c33Result{i, fmt.Sprintf("pipe:write:want(%d,%v):got(%d,%s)", op.N, op.Errs, n, c33ErrClass(err)),
-					fmt.Sprintf("Write(%d bytes) on end %d returned (%d, %v), specification: (%d, %v)", op.Arg, op.E, n, err, op.N, op.Errs)}
+				return c33Result{i, fmt.Sprintf("pipe:write:%s:want(%d,%v):got(%d,%s)", op.Via, op.N, op.Errs, n, c33ErrClass(err)),
+					fmt.Sprintf("write of %d bytes through %s on end %d returned (%d, %v), specification: (%d, %v)", op.Arg, op.Via, op.E, n, err, op.N, op.Errs)}
 			}
 		case "r":
 			if op.Dl {
@@ -349,7 +380,7 @@ func c33StreamOne(rng *rand.Rand) (key, detail string) {
 					afterClose = true
 				default:
 				}
-				m, err := wconn.Write(buf)
+				m, err := c33WriteVia(wconn, []string{"Write", "WriteString", "io.WriteString", "Write"}[wr.Intn(4)], buf)
 				switch {
 				case err == nil && m == n:
 					if afterClose {
